@@ -20,11 +20,12 @@ HOOK = "__wdsim_y__"
 _state = {"installed": False, "src": None, "stmts": 0, "modules": []}
 
 
+_CUR = None  # prims.CURRENT, bound at install time (a module-level import per call would dominate the run time)
+
+
 def _hook():
     """Pre-emption point.  No-op outside a run or when line-level pre-emption is off for the run."""
-    from . import prims
-
-    sim = prims.CURRENT[0]
+    sim = _CUR[0]
     if sim is not None and sim.cur is not None:
         if sim.monitor_on:
             sim.line_event()
@@ -134,6 +135,10 @@ def install(src):
     """Install the import hook (idempotent).  Must run before the first import of watchdog."""
     import builtins
 
+    global _CUR
+    from . import prims
+
+    _CUR = prims.CURRENT
     if _state["installed"]:
         return
     for name in list(sys.modules):
